@@ -15,11 +15,11 @@ UTF8 = 'frob-\u03b1\u00e9-\u20ac-\U0001f600@\u00f6penssh.com'
 LOOKALIKE = '\u0430es256-ctr'
 
 ALPHA = {
-    'kex': ['curve25519-sha256', 'diffie-hellman-group14-sha256', 'frob-kex@example.org', LONG, NONUTF8, SPECIAL, UTF8,
+    'kex': ['curve25519-sha256', 'diffie-hellman-group14-sha256', 'frob-kex@example.org', LONG, NONUTF8, SPECIAL, UTF8, 'hmac-sha2-256',      # (a name the database files under another category: listed where it was sent)
             'gss-gex-sha1-dZuIebMjgUqaxvbF7hDbAw==', 'gss-group14-sha256-a+b/c0==', 'gss-', ''],
-    'key': ['ssh-ed25519', 'rsa-sha2-512', 'frob-key@example.org', LONG, NONUTF8, SPECIAL, UTF8, ''],
-    'enc': ['aes256-ctr', 'chacha20-poly1305@openssh.com', 'frob-enc@example.org', LONG, NONUTF8, SPECIAL, LOOKALIKE, ''],
-    'mac': ['hmac-sha2-256', 'hmac-sha1-etm@openssh.com', 'frob-mac@example.org', LONG, NONUTF8, SPECIAL, UTF8, ''],
+    'key': ['ssh-ed25519', 'rsa-sha2-512', 'frob-key@example.org', LONG, NONUTF8, SPECIAL, UTF8, 'aes128-ctr', ''],
+    'enc': ['aes256-ctr', 'chacha20-poly1305@openssh.com', 'frob-enc@example.org', LONG, NONUTF8, SPECIAL, LOOKALIKE, 'ssh-rsa', ''],
+    'mac': ['hmac-sha2-256', 'hmac-sha1-etm@openssh.com', 'frob-mac@example.org', LONG, NONUTF8, SPECIAL, UTF8, 'curve25519-sha256', ''],
 }
 BASE = {'kex': ['sntrup761x25519-sha512@openssh.com', 'ext-info-s'], 'key': ['ssh-ed25519', 'ssh-frob@example.org'],
         'enc': ['aes128-ctr', 'aes128-gcm@openssh.com'], 'mac': ['hmac-sha2-512', 'umac-128-etm@openssh.com']}
